@@ -1,4 +1,6 @@
-"""Runs a list of batch_run specs in a fresh interpreter and prints one JSON line per batch.  argv[1]: path of a JSON spec list."""
+"""Runs a list of batch_run specs in a fresh interpreter and prints one JSON line per batch.  argv[1]: path of a JSON spec list.
+A per-batch faulthandler watchdog dumps all thread stacks to stderr and exits if one batch_run call does not return."""
+import faulthandler
 import json
 import os
 import shutil
@@ -20,6 +22,8 @@ with open(sys.argv[1]) as f:
 for spec in specs:
     ctl = tempfile.mkdtemp(prefix='c15-')
     out = {'id': spec['id']}
+    print(json.dumps({'starting': spec['id']}), flush=True)
+    faulthandler.dump_traceback_later(int(os.environ.get('VERIF_BATCH_WATCHDOG', '60')), exit=True)
     try:
         with open(os.path.join(ctl, 'control.json'), 'w') as f:
             json.dump({'fault': spec.get('fault'), 'delays': spec.get('delays'), 'collectors': spec['collector_ids']}, f)
@@ -51,5 +55,6 @@ for spec in specs:
         out['wall'] = time.time() - t0
         out['constructions'] = len([f for f in os.listdir(ctl) if f.startswith('ord_')])
     finally:
+        faulthandler.cancel_dump_traceback_later()
         shutil.rmtree(ctl, ignore_errors=True)
     print(json.dumps(out), flush=True)
